@@ -28,8 +28,12 @@ func runC02(ctx *Ctx) {
 		t := t
 		ctx.CheckRapid(string(t.Name), n, func(rt *rapid.T) *Case {
 			cfg := ctx.streamCfg(rapid.IntRange(0, 3).Draw(rt, "unknown") == 0, rapid.Bool().Draw(rt, "canonical"))
-			if rapid.IntRange(0, 2).Draw(rt, "mapheavy") == 0 {
+			switch mh := rapid.IntRange(0, 299).Draw(rt, "mapheavy"); {
+			case mh < 100:
 				cfg.MapBurst = 10
+			case mh == 100:
+				cfg.MapBurst = 140 // maps around the 127/128 entry mark (rare: large)
+				cfg.MaxRecords = 3
 			}
 			b := cfg.GenStream(rt, t.Desc, 0)
 			if _, err := decodeD(t, b); err != nil {
